@@ -5,6 +5,8 @@ import json
 import os
 import sys
 
+REPO = os.environ.get('VERIF_REPO') or '/repo'
+
 
 def _load_body(pid, tier, seed, srcbase, body):
     prop = importlib.import_module(f'props.{pid}')
@@ -36,8 +38,8 @@ def replay(pid, tier, seed, srcbase, body, call):
         def prof(frame, event, arg):
             if event == 'call':
                 fn = frame.f_code.co_filename
-                if fn.startswith('/repo/pane/'):
-                    funcs.add(fn[len('/repo/'):-3].replace('/', '.') + ':' + frame.f_code.co_qualname)
+                if fn.startswith(REPO + '/pane/'):
+                    funcs.add(fn[len(REPO) + 1:-3].replace('/', '.') + ':' + frame.f_code.co_qualname)
         sys.setprofile(prof)
     try:
         code = hlib.guard(f, *a, **kw)
